@@ -720,6 +720,22 @@ func (h *serialHarness) judgeImage(ctx context.Context, c *SerialCase, d damage,
 				pref = append(pref, tripleKey(tr))
 			}
 		}
+		// lower bound (the documented contract of ReadIntoGraph: "The triples read till then would have also been added to
+		// the graph"): every well formed line that was delivered together with its separator before the failure is loaded
+		terminated := 0
+		for _, ln := range splitLines(d.img[:d.rfail]) {
+			if strings.TrimSpace(string(ln)) == "" {
+				continue
+			}
+			tr, err := triple.Parse(string(ln), literal.DefaultBuilder())
+			if err != nil || tr == nil || ln[len(ln)-1] != '\n' {
+				break
+			}
+			terminated++
+		}
+		if n < terminated {
+			return mk("reader-lost-lines-before-read-error", "ReadIntoGraph reports %d triples although %d well formed lines were delivered completely before the reader failed at byte %d\nimage:\n%q", n, terminated, d.rfail, d.img)
+		}
 		if n > complete {
 			return mk("reader-count-after-read-error", "ReadIntoGraph reports %d triples but only %d well formed lines were delivered before the reader failed at byte %d\nimage:\n%q", n, complete, d.rfail, d.img)
 		}
